@@ -18,6 +18,13 @@ theorem function_now_other (env : Env) (r : Row) (h : env.lookup r.module r.qual
     traceOfRow env r = .error .invalidType := by
   simp [traceOfRow, funcOf, h, unwrapObj, Except.bind]
 
+/-- the name is bound to ANOTHER function now (wrapped by a decorator that does not use functools.wraps: the inner function's
+    own `__qualname__` is not the name it is found under) -/
+theorem function_now_another_function (env : Env) (r : Row) (g : FuncId) (h : env.lookup r.module r.qualname = some (.func g))
+    (hq : env.funcQual g ≠ r.qualname) : traceOfRow env r = .error .invalidType := by
+  have : (env.funcQual g == r.qualname) = false := by simpa using hq
+  simp [traceOfRow, funcOf, h, unwrapObj, Except.bind, this]
+
 /-- function replaced by a class -/
 theorem function_now_class (env : Env) (r : Row) (c : ClassId) (h : env.lookup r.module r.qualname = some (.cls c)) :
     traceOfRow env r = .error .invalidType := by
